@@ -340,7 +340,7 @@ func TestVerifC06Startup(t *testing.T) {
 		id, _ := logIDFromKey(s.key)
 		_, _, alt := simKeyPair()
 		kind := rapid.SampledFrom([]string{"create-clean", "create-over-lock", "create-over-storage", "create-over-foreign-storage", "create-over-both", "create-concurrent",
-			"clean", "behind-with-staging", "behind-without-staging", "storage-ahead", "same-size-other-root", "foreign-key-storage", "foreign-key-lock",
+			"clean", "behind-with-staging", "behind-without-staging", "storage-ahead", "same-size-other-root", "same-size-other-root-with-staging", "foreign-key-storage", "foreign-key-lock",
 			"foreign-name", "foreign-origin-same-key", "extension-line", "missing-checkpoint", "missing-edge-tile", "missing-data-tile", "lock-missing"}).Draw(t, "state")
 		fail := func(f string, a ...any) {
 			t.Fatalf("C06 violated in start-up state %q: %s", kind, fmt.Sprintf(f, a...))
@@ -427,7 +427,7 @@ func TestVerifC06Startup(t *testing.T) {
 		// build an honest log first
 		nextID := 0
 		sc := simScenario{Pre: []int{rapid.IntRange(1, 300).Draw(t, "r0"), rapid.IntRange(1, 20).Draw(t, "r1")}}
-		if kind == "behind-with-staging" || kind == "behind-without-staging" {
+		if kind == "behind-with-staging" || kind == "behind-without-staging" || kind == "same-size-other-root-with-staging" {
 			sc.PreCrash = true
 		}
 		base, err := simBuildPre(t, dir, sc, &nextID, nil)
@@ -455,7 +455,9 @@ func TestVerifC06Startup(t *testing.T) {
 			if c, _ := s.lockNow(); c.Size == lc.Size {
 				wantOK = true // an older checkpoint of the same size (empty rounds) is not "ahead"
 			}
-		case "same-size-other-root":
+		case "same-size-other-root", "same-size-other-root-with-staging":
+			// (with staging: the bundle of the tree committed in the lock store is still in the bucket, as it always is on
+			// S3 where Discard keeps objects, while someone else published another tree of that size)
 			other := vfref.LeafHash([]byte("some other tree"))
 			s.w.objs["checkpoint"] = c06Sign(cfgAlt, lc.Size, other, lc.Time)
 		case "foreign-key-storage":
